@@ -123,6 +123,7 @@ func driveETHClient(t *testing.T, in, out string, seed int64) {
 	for bi, b := range behaviours {
 		l := NewLC()
 		c := l.C
+		RoundTripAtEnd("ethclient", bi, map[string]*Chain{"host": c})
 		tree := newEthTree(uint64(c.Header.Time.Unix()) - 1000)
 		l.EnsureRelayer([]string{ethName})
 		g := tree.Hdr["g"]
